@@ -86,6 +86,26 @@ CLAIMS = {
         "note": "Trusts CrossHair/z3 and the fingerprint in harness/c18.py. Corrupted configs are concrete after the symbolic (position, replacement) choice and are parsed/run natively inside the path. The 'silently something else' clause is checked for unresolvable targets only. Logic auto-discovery (LogicLoader) on malformed configs is C19's side.",
         "design": "DESIGN.md section 4 C18",
     },
+    "C15": {
+        "text": "Bounded symbolic check under a virtual clock: symbolic sequences of 17 actor operations (4 spawn forms incl. id re-use, generated ids and a non-blocking spawn; sendTo with a symbolic addressing form out of 8; two delayed sends with ids; cancel; stopChild; forwardTo; child->parent sendParent / id-less delayed sendParent / escalate; grandchild spawn; child completion; time; stop) on a parent machine with children and a grandchild, both engines: after every operation the children map and the system registry equal a reference registry, every message is delivered exactly once to exactly the actor the documented lookup order of _resolve_actor_target names (or nobody when unresolvable / ambiguous / stopped), in sending order per receiver; cancel removes that send only; after stopChild / stop() no descendant is running, registered or ticking and the parent hears nothing from stopped children.",
+        "note": "Trusts CrossHair/z3, the reference registry in harness/c15.py and the virtual-time stubs (sync polling runner = baton-passing coroutine on an OS thread). One machine family (PM/kid/gkid), sequences of 3-4 (quick) or 4-5 (thorough) operations, depth 2, fan-out <= 4. Under-specified cases (service-key fallback with several explicit-id children; finished child) are accepted either way.",
+        "design": "DESIGN.md section 4 C15",
+    },
+    "C16": {
+        "text": "Bounded symbolic check: the determinism machine DT (3-region parallel state whose regions all have children named idle/busy, a nested compound, deep and shallow history of the parallel state, re-entry, region-local and broadcast events, context updates) is run on a symbolic event sequence under a symbolic hash layout - the hash values of a group of K StateNodes are permuted by a symbolic Lehmer code, which permutes the iteration order of every set[StateNode] the engine holds - on both engines; the full trace (ordered entry/exit/transition actions with event types, configuration and context after every event) must equal the identity-layout sync trace, so neither layout nor engine is observable.",
+        "note": "Trusts CrossHair/z3 and the hash-pinning stub (vf/env.py): distinct small ints below the table size make CPython's set iteration ascending in hash, so a permutation of the ints is a permutation of iteration order; address-based hashing of a real run is one such layout. One machine (15 nodes), sequences of 3 (quick) / 4 events, groups of K=4 (quick) / 4-6 nodes permuted at a time. PYTHONHASHSEED (str hashing), separate processes and generated-id independence are outside.",
+        "design": "DESIGN.md section 4 C16",
+    },
+    "C17": {
+        "text": "Bounded symbolic check of the whole generator: the solver chooses the features that assemble a machine JSON (C19 description family x guard form out of 9 x invoke form out of 6 x parameterised actions x an unsupported key at 3 depths x 8 hostile names at 5 positions), the template (all five), async mode and file count; for each choice the real CLI main() runs in-process on a scratch directory. Exit != 0 implies nothing written; exit 0 implies valid Python that imports without output, without executing any JSON string (injection canary) and, for the pythonic templates, builds a machine whose deep fingerprint (guards with full structure and params, actions with params, invoke id/src/input/handlers, delays, tags, meta, context, resolved targets) and 5 traces equal create_machine(json); for the JSON-loading templates the generated logic binds every referenced name; an unrepresentable key is refused; regeneration is byte-identical and --check exits 0.",
+        "note": "Trusts CrossHair/z3 for the exhaustive enumeration of the choice space; the generator itself runs natively on the concrete JSON (argparse, file system and black cannot be traced) - this is the weakest use of the solver in this suite and is stated in DESIGN.md. The CLI's own verifier is not trusted. The 104 Stately exports and multi-machine (parent/child) generation are outside.",
+        "design": "DESIGN.md section 4 C17",
+    },
+    "C19": {
+        "text": "Bounded symbolic check: (pythonic_equiv) a neutral machine description with 12 symbolic feature toggles (flat / nested with re-used state name / nested / parallel; entry-exit lists; 6 transition forms; two candidates per event; after; always; invoke; compound onDone; tags+meta; history; root properties incl. on AND always; context override) denoted as hand-written JSON, build_machine objects, MachineBuilder calls and a StateMachine subclass: deep fingerprint and 5 traces of each Python style equal create_machine(json), and a second build from the same definition objects after the first machine ran equals a fresh machine. (discovery) config whose action/guard/service references are chosen symbolically from pools with both spellings, built-ins, spawn_ directives, composite guards nested 3 deep, stateIn; provider instance or module offering a symbolic subset in snake or camel spelling: creation succeeds iff every referenced user name is offered, then all are bound and running never raises ImplementationMissingError. (precedence) a user action named log/assign/raise/sendTo supplied via MachineLogic, a MachineLogic subclass or discovery runs instead of the built-in. (camel_map) both copies of _snake_to_camel agree on every symbolic string and equal the reference on plain snake_case.",
+        "note": "Trusts CrossHair/z3, the hand-written JSON denotation in harness/c19.py and c18.fingerprint. Each pythonic_equiv item varies 2-4 toggles exhaustively with the others at a baseline; transition targets are siblings of their source. One known finding is listed (discovery ignores user implementations named like a built-in).",
+        "design": "DESIGN.md section 4 C19",
+    },
     "C20": {
         "text": "Bounded symbolic check: BaseInterpreter._matching_descriptors on 2-3 symbolic (arbitrary unicode) keys and a symbolic event type equals the reference ordering exact > partial by decreasing prefix > '*', engine-internal events exact only; and send() of a symbolic event type on a two-level machine with symbolic guard outcomes and null entries fires exactly the reference nominee on both engines.",
         "note": "Trusts CrossHair/z3 and the reference descriptor_ref/_select_ref. String lengths bounded (L in evidence); a duck-typed linear-scan mapping replaces dict for symbolic keys; the engine-level machine is one fixed two-level shape with 7 null-entry variants.",
